@@ -186,7 +186,13 @@ def TravModel.estimate (m : TravModel α) (fs : List (Feat α)) (gcMeters : α) 
 
 /-! ### turn delays -/
 
-/-- `EdgeHeading::bearing_to_destination` (i16 arithmetic modelled on `Int`; headings are small) -/
+/-- `EdgeHeading::bearing_to_destination`: the difference of the two headings (any `i16`; the code
+subtracts in `i32`, where it cannot overflow — /repo a90456f — modelled on `Int`) wrapped once by
+±360.  The code's final `wrapped.clamp(i16::MIN, i16::MAX) as i16` is NOT modelled: the only consumer
+is `Turn::from_angle`, and the clamp never changes the classification —
+`C03.turnOfAngle_clamp : turnOfAngle (clampI16 a) = turnOfAngle a` (an angle the clamp moves lies
+outside [-180, 180] before and after, where every angle is refused); as a number the model's bearing
+can differ from the code's return value (65175 vs 32767 for headings −32768 and 32767). -/
 def bearing (src dst : Int × Option Int) : Int :=
   let endH := match src.2 with | some d => d | none => src.1
   let angle := dst.1 - endH
